@@ -801,7 +801,11 @@ impl TypedExpr {
             }
             ExprEnum::UnaryOp(UnaryOp::Neg, x) => {
                 let x = x.compile(prg, env, circuit);
-                circuit.push_negation_circuit(&x)
+                let neg = circuit.push_negation_circuit(&x);
+                // only the minimum value keeps its sign bit when negated
+                let overflow = circuit.push_and(x[0], neg[0]);
+                circuit.push_panic_if(overflow, PanicReason::Overflow, meta);
+                neg
             }
             ExprEnum::UnaryOp(UnaryOp::Not, x) => {
                 let x = x.compile(prg, env, circuit);
@@ -1026,8 +1030,11 @@ impl TypedExpr {
                             let result_is_signed = result[0];
                             let not_all_bits_except_msb_are_zero =
                                 circuit.push_not(all_bits_except_msb_are_zero);
-                            let too_large_for_signed_representation = circuit
-                                .push_and(result_is_signed, not_all_bits_except_msb_are_zero);
+                            let is_result_not_neg = circuit.push_not(is_result_neg);
+                            let not_min_value =
+                                circuit.push_or(not_all_bits_except_msb_are_zero, is_result_not_neg);
+                            let too_large_for_signed_representation =
+                                circuit.push_and(result_is_signed, not_min_value);
                             overflow =
                                 circuit.push_or(overflow, too_large_for_signed_representation);
                             let result_negated = circuit.push_negation_circuit(&result);
@@ -1046,6 +1053,20 @@ impl TypedExpr {
                         }
                         circuit.push_panic_if(all_zero, PanicReason::DivByZero, meta);
                         if is_signed(ty) {
+                            let mut min_div_by_minus_one = x[0];
+                            for &b in x.iter().skip(1) {
+                                let not_b = circuit.push_not(b);
+                                min_div_by_minus_one =
+                                    circuit.push_and(min_div_by_minus_one, not_b);
+                            }
+                            for &b in y.iter() {
+                                min_div_by_minus_one = circuit.push_and(min_div_by_minus_one, b);
+                            }
+                            circuit.push_panic_if(
+                                min_div_by_minus_one,
+                                PanicReason::Overflow,
+                                meta,
+                            );
                             circuit.push_signed_division_circuit(&mut x, &mut y).0
                         } else {
                             circuit.push_unsigned_division_circuit(&x, &y).0
